@@ -405,10 +405,16 @@ func c16NodeFacts(l *lean) {
 	// ---- applyQuery: the column map, the comparison operators in source order, the joins
 	_, store := parseFile("discovery/store.go")
 	var cols [][2]string
-	var qops, joins []string
+	var qops, joins, qconds []string
 	if fd := funcDecl(store, "applyQuery"); fd != nil {
 		ast.Inspect(fd.Body, func(n ast.Node) bool {
 			switch x := n.(type) {
+			case *ast.IfStmt:
+				g := "if "
+				if x.Init != nil {
+					g += c16ExprSrc(x.Init) + "; "
+				}
+				qconds = append(qconds, g+c16ExprSrc(x.Cond))
 			case *ast.CompositeLit:
 				if strings.HasPrefix(c16ExprSrc(x.Type), "map[string]string") {
 					for _, e := range x.Elts {
@@ -444,4 +450,5 @@ func c16NodeFacts(l *lean) {
 	l.def("queryColumns", "List (String × String)", c16PairList(cols, func(s string) string { return fmt.Sprintf("%q", s) }), cols)
 	l.def("queryOps", "List String", leanStrList(qops), qops)
 	l.def("queryJoins", "List String", leanStrList(joins), joins)
+	l.def("queryConditions", "List String", leanStrList(qconds), qconds)
 }
